@@ -201,3 +201,6 @@ impl<T: Write> ClassWrite for T {
         self.write_all(buf).context("failed to write &[u8]")
     }
 }
+
+#[cfg(feature = "verif")]
+pub mod verif;
